@@ -278,3 +278,54 @@ Qed.
    the Core update_schedules model, writes exactly that document's stops and statistic; the overall statistic is its sum *)
 Lemma ex_writer : run_writer ex_P ex_S = ([Some (to_stops ex_tour, ex_stat)], ex_stat).
 Proof. vm_compute. reflexivity. Qed.
+
+(* ------------------------------------------------------------------ the stops are a forward grouping of the activities *)
+Section Grouping.
+Variable dur dist : Z -> Z -> Z.
+Variable v : vehicle.
+
+(* consecutive activities at one location share a stop whose arrival is the arrival of its FIRST activity, whose departure
+   and load are those after its LAST activity, and whose distance is the cumulative distance when it was reached *)
+Fixpoint wgroup (loc load cum : Z) (cur : sstop) (r : list wact) : list sstop :=
+  match r with
+  | [] => [cur]
+  | w :: r' =>
+    let a := w_act w in
+    let prev_load := if is_job_kind (w_kind w) then load else 0 in
+    let cum' := cum + dist loc (a_loc a) in
+    let load' := prev_load + d_change (a_dem a) in
+    if loc =? a_loc a
+    then wgroup (a_loc a) load' cum'
+                (mkSStop (ss_loc cur) (ss_arr cur) (a_dep a) load' (ss_dist cur) (ss_acts cur ++ [act_record w])) r'
+    else cur :: wgroup (a_loc a) load' cum' (mkSStop (a_loc a) (a_arr a) (a_dep a) load' cum' [act_record w]) r'
+  end.
+
+Lemma fold_is_group r : forall st cur older,
+  ws_stops st = cur :: older ->
+  map unrev (rev (ws_stops (fold_left (wstep dur dist v) r st)))
+  = map unrev (rev older) ++ wgroup (ws_loc st) (ws_load st) (st_dist (ws_stat st)) (unrev cur) r.
+Proof.
+  induction r as [|w r IH]; intros st cur older Hs; cbn [fold_left wgroup].
+  - rewrite Hs. cbn [rev]. rewrite map_app. reflexivity.
+  - destruct (ws_loc st =? a_loc (w_act w)) eqn:He.
+    + erewrite IH.
+      2:{ unfold Writer.wstep. cbn [ws_stops]. rewrite He. cbn [negb]. rewrite Hs. reflexivity. }
+      unfold Writer.wstep. cbn [ws_loc ws_load ws_stat st_dist tl]. unfold unrev. cbn [ss_loc ss_arr ss_dep ss_load ss_dist ss_acts rev].
+      reflexivity.
+    + erewrite IH.
+      2:{ unfold Writer.wstep. cbn [ws_stops]. rewrite He. cbn [negb]. reflexivity. }
+      unfold Writer.wstep. cbn [ws_loc ws_load ws_stat st_dist]. rewrite Hs. cbn [rev]. rewrite map_app, <- app_assoc.
+      unfold unrev at 3. cbn [map app ss_loc ss_arr ss_dep ss_load ss_dist ss_acts rev]. reflexivity.
+Qed.
+
+Theorem stops_are_grouping s r :
+  fst (write_tour dur dist v (s :: r)) =
+  map cleanup (wgroup (a_loc (w_act s)) (start_delivery (s :: r)) 0
+                      (unrev (hd (mkSStop 0 0 0 0 0 []) (ws_stops (start_state (s :: r) (w_act s))))) r).
+Proof.
+  unfold write_tour, wfold. cbn [fst].
+  rewrite (fold_is_group r (start_state (s :: r) (w_act s)) _ [] eq_refl).
+  cbn [rev map app start_state ws_loc ws_load ws_stat ws_stops hd st_dist stat0]. reflexivity.
+Qed.
+
+End Grouping.
